@@ -309,7 +309,7 @@ theorem captured_text_rec (epoch : Rat) (sd : SigDef) (line v : List Char) (st :
 /-- the captured text, for a pattern of any position: the record is the whole line, the part
 before the first ` | ` or the part after the last one -/
 theorem captured_text (epoch : Rat) (sd : SigDef) (line v : List Char) (st : Option Stamp)
-    (hm : matchSig epoch sd line = some (st, v)) :
+    (hpos : sd.pos ≠ 3) (hm : matchSig epoch sd line = some (st, v)) :
     ∃ rec, recordOf sd.pos line = some rec ∧
     v ≠ [] ∧ v.all (fun c => !isSp c) = true ∧
     ∃ pre, rec = pre ++ (sd.tag.toList ++ '=' :: v) ∧
@@ -317,11 +317,94 @@ theorem captured_text (epoch : Rat) (sd : SigDef) (line v : List Char) (st : Opt
       (sd.ts = .deltasecs ∨ sd.ts = .rfc3339 → pre = rec.takeWhile (· != ' ') ++ [' ']) ∧
       (sd.ts = .log → pre = rec.take 22 ++ [' ']) := by
   unfold matchSig at hm
+  simp only [hpos, if_false] at hm
   cases hrec : recordOf sd.pos line with
   | none => simp [hrec] at hm
   | some rec =>
     simp only [hrec, Option.bind_some] at hm
     exact ⟨rec, rfl, captured_text_rec epoch sd rec v st hm⟩
+
+/-- the leftmost-first search of an unanchored pattern: the capture is the longest run of the value
+class right after the FIRST place where `pre` is followed by a character of the class — a part of
+the line, never the line itself with something substituted -/
+theorem findTagged_spec (pre : List Char) (isVal : Char → Bool) (line v : List Char)
+    (h : findTagged pre isVal line = some v) :
+    ∃ before after, line = before ++ pre ++ v ++ after ∧ v ≠ [] ∧ v.all isVal = true ∧
+      (after.head?.map isVal).getD false = false ∧
+      ∀ b1 b2, before = b1 ++ b2 → b2 ≠ [] →
+        ¬ ((b2 ++ pre ++ v ++ after).take pre.length = pre ∧
+           (((b2 ++ pre ++ v ++ after).drop pre.length).head?.map isVal).getD false = true) := by
+  induction line with
+  | nil => simp [findTagged] at h
+  | cons c cs ih =>
+    unfold findTagged at h
+    split at h
+    · next hc =>
+      simp only [Bool.and_eq_true, beq_iff_eq] at hc
+      obtain ⟨hpre, hv⟩ := hc
+      injection h with h
+      refine ⟨[], ((c :: cs).drop pre.length).dropWhile isVal, ?_, ?_, ?_, ?_, ?_⟩
+      · rw [← h]
+        simp only [List.nil_append, List.append_assoc, List.takeWhile_append_dropWhile]
+        conv => lhs; rw [← List.take_append_drop pre.length (c :: cs)]
+        rw [hpre]
+      · rw [← h]
+        cases hd : (c :: cs).drop pre.length with
+        | nil => simp [hd] at hv
+        | cons x xs =>
+          simp only [hd, List.head?_cons, Option.map_some, Option.getD_some] at hv
+          simp [List.takeWhile, hv]
+      · rw [← h]; exact List.all_takeWhile
+      · cases hd : ((c :: cs).drop pre.length).dropWhile isVal with
+        | nil => simp
+        | cons x xs =>
+          have := List.head?_dropWhile_not isVal ((c :: cs).drop pre.length)
+          simp only [hd, List.head?_cons] at this
+          simp [this]
+      · intro b1 b2 hb hne
+        have h0 : b1 ++ b2 = [] := hb.symm
+        have : b2 = [] := (List.append_eq_nil_iff.mp h0).2
+        exact absurd this hne
+    · next hc =>
+      obtain ⟨before, after, hl, hv1, hv2, hv3, hmin⟩ := ih h
+      refine ⟨c :: before, after, by simp [hl], hv1, hv2, hv3, ?_⟩
+      intro b1 b2 hb hne
+      cases b1 with
+      | nil =>
+        simp only [List.nil_append] at hb
+        subst hb
+        intro hcon
+        apply hc
+        simp only [Bool.and_eq_true, beq_iff_eq]
+        have e : (c :: before) ++ pre ++ v ++ after = c :: cs := by simp [hl]
+        rw [e] at hcon
+        exact hcon
+      | cons x xs =>
+        simp only [List.cons_append, List.cons.injEq] at hb
+        exact hmin xs b2 hb.2 hne
+
+/-- **captured_free**: for an unanchored pattern (`pos = 3`) the value of the data point is the
+captured part of the line, and the stamp is the reception time -/
+theorem captured_free (epoch : Rat) (sd : SigDef) (line v : List Char) (st : Option Stamp)
+    (hpos : sd.pos = 3) (hm : matchSig epoch sd line = some (st, v)) :
+    st = some .now ∧ ∃ before after, line = before ++ (sd.tag.toList ++ ['=']) ++ v ++ after ∧
+      v ≠ [] ∧ v.all (valClass sd.typ) = true := by
+  unfold matchSig matchFree at hm
+  simp only [hpos, if_true] at hm
+  cases hf : findTagged (sd.tag.toList ++ ['=']) (valClass sd.typ) line with
+  | none => simp [hf] at hm
+  | some w =>
+    simp only [hf, Option.map_some, Option.some.injEq, Prod.mk.injEq] at hm
+    obtain ⟨rfl, rfl⟩ := hm
+    obtain ⟨before, after, hl, h1, h2, _, _⟩ := findTagged_spec _ _ _ _ hf
+    exact ⟨rfl, before, after, hl, h1, h2⟩
+
+/-- the defect repaired by the `fix:` commit, as a witness: `INFO load=42 ms` — the capture is `42`
+(the pinned code substituted it into the line: `INFO 42 ms`, which is no number) -/
+example : matchSig 0 ⟨"load", "load", .scalar, .now, 3⟩ "INFO load=42 ms".toList = some (some .now, "42".toList) ∧
+    sampleOf 0 ⟨"load", "load", .scalar, .now, 3⟩ 0 "INFO load=42 ms".toList = (0, some ⟨.now, .num 42⟩) ∧
+    matchSig 0 ⟨"boot", "boot", .event, .now, 3⟩ "x boot= boot=done now".toList = some (some .now, "done".toList) := by
+  decide +kernel
 
 /-- two records of one line: each pattern reads its own record (non-vacuity: different dates) -/
 example : recordOf 1 "2020-01-01T00:00:01Z a=x | 2020-01-01T00:00:03Z b=2".toList
@@ -340,7 +423,7 @@ example : sampleOf 1577836800 ⟨"b", "b", .scalar, .rfc3339, 2⟩ 0
 seconds since the start of the play for `ts_deltasecs`; the captured date minus the epoch of the
 play (i.e. that date, on the play's clock) for `ts_rfc3339` and `ts_log`. -/
 theorem ts_kind (epoch : Rat) (sd : SigDef) (last last' : Rat) (line : List Char) (p : Point)
-    (h : sampleOf epoch sd last line = (last', some p)) :
+    (hpos : sd.pos ≠ 3) (h : sampleOf epoch sd last line = (last', some p)) :
     ∃ rec, recordOf sd.pos line = some rec ∧
     (sd.ts = .now → p.stamp = .now) ∧
     (sd.ts = .deltasecs → ∃ secs, isDeltaSecs (rec.takeWhile (· != ' ')) = true ∧
@@ -367,6 +450,7 @@ theorem ts_kind (epoch : Rat) (sd : SigDef) (last last' : Rat) (line : List Char
         · rw [← h.2]
   obtain ⟨v, hm⟩ := hm
   unfold matchSig at hm
+  simp only [hpos, if_false] at hm
   cases hrec : recordOf sd.pos line with
   | none => simp [hrec] at hm
   | some line' =>
